@@ -17,8 +17,15 @@ Open Scope N_scope.
 Record obs_ev := mkObs { o_eff : list effect; o_views : list (list peer); o_conn : list bool;
                          o_api : list (list addr) }.
 
+(* c_mode 0: a sequential history; obs has one entry per event and everything is compared.
+   c_mode 1: a concurrent run -- several goroutines, each repeating its own event list over
+   addresses that no other goroutine touches, so that every linearisation ends in the same views;
+   evs is one such linearisation (each list once), obs is the single observation made after all
+   calls returned (no effects recorded), or [] when some call did not return within the
+   watchdog limit (the topology is stuck). *)
 Record case := mkCase {
   id : N;
+  c_mode : N;
   c_roles : list Z;          (* int(p2p.PeerTypeBootnode), int(PeerTypeProvider), int(PeerTypeBidder) as compiled *)
   probes : list addr;
   evs : list event;
@@ -87,10 +94,13 @@ Fixpoint within_pool (s : state) (l : list event) : bool :=
               && within_pool (fst (step s e)) r
   end.
 
+Definition final_obs (pr : list addr) (l : list event) : obs_ev := observe pr (run l) [].
+
 Definition case_agrees (c : case) : bool :=
   list_eqb Z.eqb (c_roles c) [ROLE_BOOTNODE; ROLE_PROVIDER; ROLE_BIDDER]
   && within_pool init (evs c)
-  && list_eqb obs_eqb (run_obs (probes c) init (evs c)) (obs c).
+  && (if c_mode c =? 0 then list_eqb obs_eqb (run_obs (probes c) init (evs c)) (obs c)
+      else list_eqb obs_eqb [final_obs (probes c) (evs c)] (obs c)).
 
 Definition mismatches (cs : list case) : list N :=
   map id (filter (fun c => negb (case_agrees c)) cs).
@@ -232,8 +242,22 @@ Fixpoint trace_clauses (A : abs) (pr : list addr) (l : list event) (os : list ob
   | _, _ => []
   end.
 
+(* concurrent runs: the abstract sets after the linearisation (the effects a dial completion
+   would need are taken from the model; the driver's concurrent runs contain no gossip) *)
+Fixpoint abs_run (s : state) (A : abs) (l : list event) : abs :=
+  match l with
+  | [] => A
+  | e :: r => abs_run (fst (step s e)) (abs_step A e (snd (step s e))) r
+  end.
+Definition final_clauses (pr : list addr) (l : list event) (os : list obs_ev) : list string :=
+  match os with
+  | [o] => flag (negb (view_ok (abs_run init abs_init l) pr o)) "view"
+  | _ => ["view:hang"%string]
+  end.
+
 Definition case_violations (c : case) : list string :=
-  nodup string_dec (trace_clauses abs_init (probes c) (evs c) (obs c)).
+  if c_mode c =? 0 then nodup string_dec (trace_clauses abs_init (probes c) (evs c) (obs c))
+  else final_clauses (probes c) (evs c) (obs c).
 
 Definition violations (cs : list case) : list (N * string) :=
   flat_map (fun c => map (fun k => (id c, k)) (case_violations c)) cs.
